@@ -43,10 +43,20 @@ def _recording(name, f):
     if not isinstance(f, (types.FunctionType, types.MethodType)):
         return f
 
+    try:
+        import inspect
+        ps = inspect.signature(f).parameters.values()
+        open_kw = any(p.kind is p.VAR_KEYWORD for p in ps)
+        known = {p.name for p in ps if p.kind in (p.POSITIONAL_OR_KEYWORD, p.KEYWORD_ONLY)}
+    except (TypeError, ValueError):
+        open_kw, known = True, set()
+
     def w(*a, **k):
-        STUB_CALLS.append((name, a, dict(k)))
+        STUB_CALLS.append((name, a, dict(k)))      # (recorded in full: effect obligations inspect what the caller handed over)
         if len(STUB_CALLS) > 10000:
             del STUB_CALLS[:5000]
+        if not open_kw:
+            k = {q: v for q, v in k.items() if q in known}   # a contract stub written before the callee gained an optional keyword ignores that keyword
         return f(*a, **k)
     w.__wrapped__ = f
     return w
